@@ -145,19 +145,36 @@ class Scheduler:
         return out
 
     # ------------------------------------------------------------------ running
+    def _start(self, t):
+        t.os_thread = threading.Thread(target=self._body, args=(t,), name=f"sim-{t.id}", daemon=True)
+        t.os_thread.start()
+
     def run(self):
+        # gated threads model threads that are *created* after the others have ended (a fresh thread may then
+        # get a recycled OS thread identifier): their OS thread is started only at that point
         for t in self.threads:
-            t.os_thread = threading.Thread(target=self._body, args=(t,), name=f"sim-{t.id}", daemon=True)
-            t.os_thread.start()
+            if not t.gated:
+                self._start(t)
         first = self._choose(None, ("start",))
-        if first is not None:
+        if first is not None and not self.threads[first].gated:
             self.cur = self.threads[first]
             self.cur.sem.release()
             self.ctrl.acquire()
         for t in self.threads:
+            if t.gated:
+                continue
             t.os_thread.join(60)
             if t.os_thread.is_alive():
                 raise HarnessError("sim-thread did not terminate")
+        for t in self.threads:
+            if t.gated:
+                self._start(t)
+                self.cur = t
+                t.sem.release()
+                self.ctrl.acquire()
+                t.os_thread.join(60)
+                if t.os_thread.is_alive():
+                    raise HarnessError("sim-thread did not terminate")
         if self.aborted:
             raise HarnessError(self.aborted)
         for t in self.threads:
@@ -197,7 +214,8 @@ class Scheduler:
             sys.settrace(None)
             t.done = True
             nxt = self._choose(None, ("finish", t.id))
-            if nxt is None:
+            if nxt is None or self.threads[nxt].gated or t.gated:
+                # nothing left to run concurrently: hand back to the controller (which starts gated threads one by one)
                 self.ctrl.release()
             else:
                 self.cur = self.threads[nxt]
